@@ -34,7 +34,7 @@ def shard(arg):
         value = TAINT if it.kind == "stmt" else None
         outs = {}
         for ae in (False, True):
-            env, gm, data = it.make(env_kwargs={"autoescape": ae}, value=value)
+            env, gm, data = corpus.safe_make(it, env_kwargs={"autoescape": ae}, value=value)
             if it.kind != "stmt":
                 # taint every plain string value of the data and the environment globals
                 data = {kk: (v + TAINT if isinstance(v, str) and not kk.startswith(("pv", "tv")) else v) for kk, v in data.items()}
